@@ -1936,6 +1936,55 @@ func c18GenHighRate(r *rand.Rand) *c18Case {
 	return c
 }
 
+// c18GenQuota: quota-style limiters: a handful of requests per hour / day / week, ExpiresIn of hours or days
+// (ExpiresIn*rate >= burst), virtual-clock jumps of matching size.  Exact variant: rate k/2^j per second with
+// j = 12..16 (compared with the model); arbitrary variant: k per 3600 / 86400 / 604800 s (oracle only).
+func c18GenQuota(r *rand.Rand, big bool) *c18Case {
+	c := &c18Case{Exact: r.Intn(2) == 0}
+	unit := int64(1)
+	if c.Exact {
+		unit = c18Tick
+		c.RateDen = int64(1) << uint(12+r.Intn(5))
+		c.RateNum = int64(1 + r.Intn(8))
+	} else {
+		c.RateDen = []int64{3600, 86400, 604800}[r.Intn(3)]
+		c.RateNum = int64(1 + r.Intn(10))
+	}
+	c.Burst = 1 + r.Intn(8)
+	minExp := ceilDiv(ceilDiv(int64(c.Burst)*c.RateDen*c18Second, c.RateNum), unit) * unit
+	switch r.Intn(4) {
+	case 0:
+		c.ExpiresIn = minExp
+	case 1:
+		c.ExpiresIn = minExp + int64(1+r.Intn(3))*unit
+	case 2:
+		c.ExpiresIn = 2 * minExp
+	default:
+		c.ExpiresIn = (minExp/(3600*c18Second) + 1) * 3600 * c18Second / unit * unit // whole hours
+		if c.ExpiresIn < minExp {
+			c.ExpiresIn = minExp
+		}
+	}
+	c.T0 = int64(r.Intn(1000)) * c18Tick
+	c18Variants(r, c)
+	if c.Burst == 0 || c.ExpiresIn == 0 { // c18Variants may have switched to the defaults
+		c.Burst, c.ExpiresIn, c.Simple = 1+r.Intn(8), 2*minExp, false
+		for !c.hexp() {
+			c.ExpiresIn *= 2
+		}
+	}
+	n := 6 + r.Intn(30)
+	if big {
+		n = 20 + r.Intn(100)
+	}
+	if r.Intn(2) == 0 {
+		c18Probe(r, c, unit, 1+r.Intn(3))
+	} else {
+		c18History(r, c, unit, n)
+	}
+	return c
+}
+
 func c18Gen(r *rand.Rand, tier string) []any {
 	n := 3000
 	big := false
@@ -1965,6 +2014,9 @@ func c18Gen(r *rand.Rand, tier string) []any {
 		out = append(out, c18GenStress(r))
 	}
 	out = append(out, &c18Case{RateNum: 1, RateDen: 1, NilStore: true})
+	for i := 0; i < n/15; i++ {
+		out = append(out, c18GenQuota(r, big && i%3 == 0))
+	}
 	// many identifiers in one store
 	if tier == "thorough" {
 		for _, n := range []int{70000, 66000, 140000, 270000, 70000, 12000, 35000, 66000} {
@@ -2096,7 +2148,7 @@ func c18Shrink(ci any) []any {
 func init() {
 	register(&Prop{
 		ID:             "C18",
-		Rule:           "3/5 exact stream (rate k/2^j, instants multiples of 2^-9 s: float64 arithmetic of x/time/rate is exact, decisions compared with the Lean model), 2/5 arbitrary stream (rate p/q, ns instants, incl. the F11 arrival pattern floor(i/rate): oracles only), plus high-rate exact cases where the 1 ns truncation slack shows, plus a skew stream (concurrent Store.Allow goroutines on a clock monotone in start order, some held by channels between their clock reading and AllowN while 1-3 later calls complete: out-of-order readings at the limiter, finding F19; compared with the model in AllowN order and checked against the allowance of C18_skew_bucket), plus a frozen-clock stress stream (4-15 fresh identifiers x 8-31 goroutines released together: at most / exactly burst admissions per identifier on any schedule; oracle only); a third of the middleware cases use custom Deny/ErrorHandlers (writing 429/403 and returning nil, or returning their own HTTPError); 1-4 identifiers (a fifth of the cases: 65-200 byte identifiers sharing their first 64+ bytes, differing only in the last byte, or one a prefix of the other), bursts at one instant, arrivals at/next to the refill interval, idle gaps at ExpiresIn-1,+0,+1 unit and beyond (cleanup), returns after being forgotten; ExpiresIn tight (=burst/rate), wider, default, or (exact stream only, tie only) violating ExpiresIn*rate>=burst; requests direct to Store.Allow or through the middleware (extractor error, skipper, default RealIP extractor); the middleware instances are built with RateLimiterWithConfig (with Skipper, or a hand-built config with nil Skipper; a quarter with a counted BeforeFunc) or with the convenience constructor RateLimiter(store); stores with NewRateLimiterMemoryStoreWithConfig or NewRateLimiterMemoryStore(rate); a quarter of the cases have a SECOND store with other parameters in the same process and send the requests over routes behind one limiter, a coarse limiter on the group + a strict one on the route, two limiters on one route in the other order, or two instances sharing one store (a sixth of the single-store cases use that route too), with direct calls to either store, plus a two-store expiry probe (an identifier is swept at one store, then first-time identifiers arrive at the other store with more than its burst); the Allow calls of every store are recorded: window / refusal / independence per store on its own trace, isolation = the decisions of every store re-run on a store of its own, middleware = the chain is consulted in order, each instance once, nothing behind the first refusal; one case per run checks that a config without Store is refused; in a third of the cases the middleware instances get the *RateLimiterMemoryStore itself as Store (raw: optional capabilities the middleware type-asserts for are visible; one limiter per request path, the decision is read off the response) instead of the recording wrapper; plus a many-identifiers stream: 3 (thorough: 12) ordinary histories with 300-2500 first-time identifiers between the exhaustion and the return of early identifiers (compared with the model), and 2 (thorough: 8) big cases with 5k-69k (thorough: up to 270k) live identifiers in one store, 8 victims exhausted at T0 and re-probed when the table holds exactly 1000, 1024, 4096, 10000, 16384, 32768, 65535..65537, 100000, 131072, ... identifiers (oracle only: window / refusal on the victims, every first-time identifier admitted); non-trivial = some identifier is admitted again after a refusal, or returns after a gap longer than ExpiresIn; distinct = distinct model op lines / cases",
+		Rule:           "3/5 exact stream (rate k/2^j, instants multiples of 2^-9 s: float64 arithmetic of x/time/rate is exact, decisions compared with the Lean model), 2/5 arbitrary stream (rate p/q, ns instants, incl. the F11 arrival pattern floor(i/rate): oracles only), plus high-rate exact cases where the 1 ns truncation slack shows, plus a skew stream (concurrent Store.Allow goroutines on a clock monotone in start order, some held by channels between their clock reading and AllowN while 1-3 later calls complete: out-of-order readings at the limiter, finding F19; compared with the model in AllowN order and checked against the allowance of C18_skew_bucket), plus a frozen-clock stress stream (4-15 fresh identifiers x 8-31 goroutines released together: at most / exactly burst admissions per identifier on any schedule; oracle only); a third of the middleware cases use custom Deny/ErrorHandlers (writing 429/403 and returning nil, or returning their own HTTPError); 1-4 identifiers (a fifth of the cases: 65-200 byte identifiers sharing their first 64+ bytes, differing only in the last byte, or one a prefix of the other), bursts at one instant, arrivals at/next to the refill interval, idle gaps at ExpiresIn-1,+0,+1 unit and beyond (cleanup), returns after being forgotten; ExpiresIn tight (=burst/rate), wider, default, or (exact stream only, tie only) violating ExpiresIn*rate>=burst; requests direct to Store.Allow or through the middleware (extractor error, skipper, default RealIP extractor); the middleware instances are built with RateLimiterWithConfig (with Skipper, or a hand-built config with nil Skipper; a quarter with a counted BeforeFunc) or with the convenience constructor RateLimiter(store); stores with NewRateLimiterMemoryStoreWithConfig or NewRateLimiterMemoryStore(rate); a quarter of the cases have a SECOND store with other parameters in the same process and send the requests over routes behind one limiter, a coarse limiter on the group + a strict one on the route, two limiters on one route in the other order, or two instances sharing one store (a sixth of the single-store cases use that route too), with direct calls to either store, plus a two-store expiry probe (an identifier is swept at one store, then first-time identifiers arrive at the other store with more than its burst); the Allow calls of every store are recorded: window / refusal / independence per store on its own trace, isolation = the decisions of every store re-run on a store of its own, middleware = the chain is consulted in order, each instance once, nothing behind the first refusal; one case per run checks that a config without Store is refused; plus a quota stream (1/15 of the cases): 1-10 requests per hour / day / week (exact variant: k/2^12..2^16 per second, compared with the model), burst 1-8, ExpiresIn of hours to weeks (tight, +units, doubled, whole hours), expiry probe and histories with virtual-clock jumps of that size; in a third of the cases the middleware instances get the *RateLimiterMemoryStore itself as Store (raw: optional capabilities the middleware type-asserts for are visible; one limiter per request path, the decision is read off the response) instead of the recording wrapper; plus a many-identifiers stream: 3 (thorough: 12) ordinary histories with 300-2500 first-time identifiers between the exhaustion and the return of early identifiers (compared with the model), and 2 (thorough: 8) big cases with 5k-69k (thorough: up to 270k) live identifiers in one store, 8 victims exhausted at T0 and re-probed when the table holds exactly 1000, 1024, 4096, 10000, 16384, 32768, 65535..65537, 100000, 131072, ... identifiers (oracle only: window / refusal on the victims, every first-time identifier admitted); non-trivial = some identifier is admitted again after a refusal, or returns after a gap longer than ExpiresIn; distinct = distinct model op lines / cases",
 		New:            func() any { return &c18Case{} },
 		Gen:            c18Gen,
 		Run:            c18Run,
